@@ -96,20 +96,38 @@ def r13_2_zone_interval_cache(ctx: Ctx) -> RuleResult:
     if not isinstance(SHIFT, int):
         raise AnalysisError("_PERIOD_SHIFT not foldable")
     rr.inst()
-    txt = unparse(f.node)
+    # the lookup may be split over private helpers of the same class: look at get_zone_interval together with the
+    # same-object methods it (transitively) calls
+    from ..locks import reach_same_object
+
+    parts = [h for h, _ in reach_same_object(ctx, f).values() if not isinstance(h.node, ast.Lambda)]
+    nodes = [n for h in parts for n in ast.walk(h.node)]
     probs = []
-    if "instant._days_since_epoch >> _PERIOD_SHIFT" not in txt:
+    shifted = {t.id for n in nodes if isinstance(n, ast.Assign) and isinstance(n.value, ast.BinOp) and isinstance(n.value.op, ast.RShift) and unparse(n.value.right) == "_PERIOD_SHIFT" and unparse(n.value.left).endswith("_days_since_epoch") for t in n.targets if isinstance(t, ast.Name)}
+    if not shifted:
         probs.append("period is not days_since_epoch >> _PERIOD_SHIFT")
-    cmp_ok = any(isinstance(n, ast.Compare) and unparse(n) in ("node._period != period", "period != node._period") for n in ast.walk(f.node))
+    # names carrying the exact period: the shifted variable, and helper parameters bound to it at a self-call
+    exact = set(shifted)
+    for h in parts:
+        for n in ast.walk(h.node):
+            if isinstance(n, ast.Call) and isinstance(n.func, ast.Attribute) and isinstance(n.func.value, ast.Name) and n.func.value.id == (h.self_name or "self"):
+                callee = next((k for k in parts if k.cls is h.cls and mangle(h.cls.name, n.func.attr) in (k.name, mangle(k.cls.name, k.name))), None) if h.cls else None
+                if callee is not None:
+                    for a, p in zip(n.args, callee.value_params):
+                        if isinstance(a, ast.Name) and a.id in exact:
+                            exact.add(p.arg)
+    cmp_ok = any(isinstance(n, ast.Compare) and len(n.ops) == 1 and isinstance(n.ops[0], ast.NotEq) and (
+        (unparse(n.left).endswith("._period") and isinstance(n.comparators[0], ast.Name) and n.comparators[0].id in exact)
+        or (unparse(n.comparators[0]).endswith("._period") and isinstance(n.left, ast.Name) and n.left.id in exact)) for n in nodes)
     if not cmp_ok:
         probs.append("the cached node is not compared with the exact (unmasked) period")
-    reads = sum(1 for n in ast.walk(f.node) if isinstance(n, ast.Subscript) and isinstance(n.ctx, ast.Load) and "instant_cache" in unparse(n.value))
+    reads = sum(1 for n in nodes if isinstance(n, ast.Subscript) and isinstance(n.ctx, ast.Load) and "instant_cache" in unparse(n.value))
     if reads != 1:
         probs.append(f"the shared slot is read {reads} times")
     if probs:
         rr.fail(f.qual, "; ".join(probs), ctx.loc(f))
     else:
-        rr.ok({"fn": f.qual, "period_check": "exact", "slot_reads": 1})
+        rr.ok({"fn": f.qual, "period_check": "exact", "slot_reads": 1, "functions": [h.qual for h in parts]})
     g = M.func("_CachingZoneIntervalMap.__HashArrayCache._HashCacheNode._create_node")
     from ..absint import State
     from ..oblig import interp
